@@ -660,7 +660,7 @@ def random_real_config(rnd):
         start = ts[-1] + rnd.uniform(0.5, 20.0)
     N = len(t)
     P = math.exp(rnd.uniform(math.log(1.5), math.log(400.0)))
-    e = rnd.choice([0.0, rnd.uniform(0, 0.6), rnd.uniform(0.6, 0.95)])
+    e = rnd.choice([0.0, rnd.uniform(0, 0.6), rnd.uniform(0.6, 0.95), rnd.uniform(0.95, 0.99)])     # the property's range: 0 <= e <= 0.99
     kkind = "custom" if (noff == 0 and rnd.random() < 0.3) else "default"
     c = {"t": t, "lab": lab, "y": [rnd.gauss(0, 20.0) for _ in range(N)], "sig2": [rnd.uniform(0.05, 4.0) ** 2 for _ in range(N)],
          "s2": rnd.choice([0.0, rnd.uniform(0.1, 3.0) ** 2]), "P": P, "e": e, "omega": rnd.uniform(0, 2 * math.pi),
